@@ -371,6 +371,17 @@ Theorem other_groups_token_gets_401 :
 Proof. exact serve_jwt_rejects. Qed.
 Print Assumptions other_groups_token_gets_401.
 
+(* CONCURRENT REQUESTS.  The gates keep no state that an answer depends on: whatever sequence the
+   requests of a concurrent burst are served in, from whatever counter state, each gets exactly the
+   answer (output and route) it would get alone on a freshly started server. *)
+Theorem concurrent_requests_get_their_own_answers :
+  forall ulfix mac rsa_dec cmac sha aes_ok E D b64enc b64dec limit tab qs st,
+  map (fun o => (s_out o, s_route o)) (serve_all ulfix mac rsa_dec cmac sha aes_ok E D b64enc b64dec limit tab st qs) =
+  map (fun q => (s_out (snd (serve ulfix mac rsa_dec cmac sha aes_ok E D b64enc b64dec limit tab [] q)),
+                 s_route (snd (serve ulfix mac rsa_dec cmac sha aes_ok E D b64enc b64dec limit tab [] q)))) qs.
+Proof. exact any_order_same_answers. Qed.
+Print Assumptions concurrent_requests_get_their_own_answers.
+
 (* what a request to a route gets depends only on the options of the group that registered it *)
 Theorem groups_are_isolated :
   forall ulfix key_ok mac rsa_dec cmac sha aes_ok E D b64enc b64dec limit gs1 gs2 st q g1 g2,
